@@ -103,7 +103,7 @@ func emitDoc(r *Run, c *configv1.Config) {
 	for _, u := range sortedKeys(uris) {
 		res := "-"
 		if p, err := url.Parse(u); err == nil {
-			res = hx(p.Path)
+			res = hx(p.EscapedPath()) // the path as written (escaped form): what the loader compares with the logout path, and root iff the decoded path is root
 		}
 		r.Emit("conf url "+hx(u)+" "+res, "ok")
 	}
@@ -175,7 +175,7 @@ func resolvedProblems(c *configv1.Config) []string {
 				p = append(p, "callback URI unparseable or root")
 			}
 			if lo := o.GetLogout(); lo != nil {
-				if lo.GetPath() == "" || lo.GetPath() == "/" || (cb != nil && cb.Path == lo.GetPath()) {
+				if lo.GetPath() == "" || lo.GetPath() == "/" || (cb != nil && cb.EscapedPath() == lo.GetPath()) {
 					p = append(p, "logout path root or equal to the callback path")
 				}
 			}
@@ -457,6 +457,8 @@ func directedOverrideDocs() []any {
 		{}, {"logout": J{"path": "/oauth"}}, {"logout": J{"path": "/oauth", "redirect_uri": "https://idp/x"}}, {"logout": J{"redirect_uri": "https://idp/x"}},
 		{"callback_uri": "https://app/session"}, {"callback_uri": "https://app/session", "logout": J{"redirect_uri": "https://idp/x"}},
 		{"callback_uri": "https://app/session?x=1"}, {"callback_uri": "https://other/session/"}, {"callback_uri": "https://app/"}, {"callback_uri": "https://app"},
+		{"callback_uri": "https://app/s%C3%A9ance", "logout": J{"path": "/s%C3%A9ance"}}, {"callback_uri": "https://app/s%C3%A9ance", "logout": J{"path": "/séance"}},
+		{"callback_uri": "https://app/log%20in", "logout": J{"path": "/log%20in", "redirect_uri": "https://idp/x"}},
 		{"callback_uri": "%gh"}, {"callback_uri": "https://app/#/oauth/callback"}, {"callback_uri": "https://app/cb#state?next=%zz"}, {"logout": J{"path": "/"}}, {"logout": J{"path": ""}}, {"logout": J{}}, {"client_id": "a:b"}, {"client_id": ""},
 		{"id_token": J{"header": ""}}, {"id_token": J{"preamble": "Token"}}, {"access_token": J{"header": ""}}, {"access_token": J{"header": "x-at"}},
 		{"scopes": []string{}}, {"scopes": []string{"email"}}, {"scopes": []string{"openid"}}, {"scopes": []string{"openid_connect"}}, {"scopes": []string{"myopenid", "email"}},
